@@ -47,6 +47,20 @@ hyperedge. -/
 def binIncIdx (N : Nat) (hyes : List (List Nat)) : List (List α) :=
   (List.range N).map fun i => hyes.map fun e => ind (e.contains i)
 
+/-- `inferred_N` : largest node index plus one (0 without any node) -/
+def inferredN (hyes : List (List Nat)) : Nat := (hyes.flatten.map (· + 1)).foldl max 0
+
+/-- the dense `(N, E)` matrix of the COO triplets when `E` may exceed the number of hyperedges (extra columns are empty) -/
+def binIncPad (N E : Nat) (hyes : List (List Nat)) : List (List α) :=
+  (List.range N).map fun i => (List.range E).map fun j => ind ((hyes.getD j []).contains i)
+
+/-- `hye_list_to_binary_incidence(hye_list, shape)` called directly: the shape is inferred when absent and
+rejected (`ValueError`) when smaller than the inferred one. -/
+def hyeBinInc (hyes : List (List Nat)) (shape : Option (Nat × Nat)) : Option (List (List α)) :=
+  match shape with
+  | none => some (binIncPad (inferredN hyes) hyes.length hyes)
+  | some (n, e) => if n < inferredN hyes ∨ e < hyes.length then none else some (binIncPad n e hyes)
+
 /-- `binary_incidence_matrix(hypergraph)` : shape `(num_nodes, num_edges)`, hyperedges relabelled by the encoder -/
 def binInc (nodes : List Nat) (edges : List Edge) : List (List α) :=
   let cls := classes nodes
